@@ -35,6 +35,8 @@ func verifCheckRead(doc *verifDoc, opt *ReaderOptions) {
 			continue
 		}
 		verifrt.Assert(stm.Dict["Kind"] == Name("S"), "stream dictionary entry survives")
+		t, _ := stm.Dict["T"].(String)
+		verifrt.Assert(string(t) == "t(x", "string in the stream dictionary survives")
 		rd, err := DecodeStream(r, nil, stm)
 		verifrt.Assert(err == nil, "DecodeStream succeeds")
 		if err != nil {
